@@ -24,3 +24,11 @@ func Oneshot(name string) {
 	}
 	fmt.Print(f())
 }
+
+// repoDir is the tree under test.
+func repoDir() string {
+	if d := os.Getenv("VERIF_REPO"); d != "" {
+		return d
+	}
+	return "/repo"
+}
